@@ -251,6 +251,32 @@ let () =
   if Array.length Sys.argv >= 3 && Sys.argv.(1) = "c01mon" then begin
     run_c01mon (int_of_string Sys.argv.(2)); exit 0 end
 
+(* ---- C05 mode: "c05": first line of stdin is a cfg line, every further line "<update|react|query> <active state>"; prints, per line, the
+   callbacks the call must begin with - "who rec method" triples separated by ';' - computed by the extracted expected_cbs (Proofs/CycleProofs.v) ---- *)
+let run_c05 () : unit =
+  let cfg = ref None in
+  (try
+     while true do
+       let line = input_line stdin in
+       match split_ws line with
+       | "cfg" :: toks -> cfg := Some (parse_cfg toks)
+       | [op; a] ->
+         let c = (match !cfg with Some c -> c | None -> failwith "no cfg line") in
+         let an = nat_of_int (int_of_string a) in
+         let ds = (match op with
+             | "update" -> update_phases an
+             | "react" -> react_phases an
+             | _ -> [(Root, MQuery); (St an, MQuery)]) in
+         let cbs = expected_cbs c ds in
+         print_string (String.concat ";" (List.map (fun ((w, r), m) -> Printf.sprintf "%s %s %s" (who_str w) (rec_str r) method_names.(method_index m)) cbs));
+         print_newline ()
+       | _ -> ()
+     done
+   with End_of_file -> ())
+
+let () =
+  if Array.length Sys.argv >= 2 && Sys.argv.(1) = "c05" then begin run_c05 (); exit 0 end
+
 let () =
   if Array.length Sys.argv >= 4 && Sys.argv.(1) = "dp" then begin
     run_dp (int_of_string Sys.argv.(2)) (Sys.argv.(3) = "1"); exit 0 end
